@@ -98,7 +98,13 @@ pub fn check(cfg: &Cfg, rep: Option<&mut Report>) -> Result<u64, String> {
                         if (n_steps as usize) > n_evals { return Err(format!("draw {d}: n_steps {n_steps} > density evaluations in this draw {n_evals}")); }
                     }
                     if mflag && (depth != cfg.maxdepth || div) && cfg.tit.is_none() { return Err(format!("draw {d}: maxdepth_reached but depth {depth}, maxdepth {}, diverging {div}", cfg.maxdepth)); }
-                    if (idx == 0) != unchanged { return Err(format!("draw {d}: index_in_trajectory {idx} but position {}", if unchanged { "unchanged" } else { "changed" })); }
+                    // index 0 iff the chain did not move.  Exception that is not a property of the code: when the step size has collapsed so far
+                    // that x + eps*v rounds to x (seen after long runs of injected faults at every 32nd evaluation: step 8e-17), every state of the
+                    // trajectory has bitwise the start position; "did not move" then cannot be read off the position.
+                    let frozen = evals[first_eval..].iter().all(|r| r.pos.iter().zip(prev_pos.iter()).all(|(a, b)| a.to_bits() == b.to_bits()));
+                    if (idx == 0) != unchanged && !(frozen && idx != 0) {
+                        return Err(format!("draw {d}: index_in_trajectory {idx} but position {} (step size {})", if unchanged { "unchanged" } else { "changed" }, progress.step_size));
+                    }
                     if progress.num_steps != n_steps { return Err(format!("draw {d}: Progress.num_steps {} != n_steps stat {n_steps}", progress.num_steps)); }
                     if depth >= 2 && idx != 0 { nontrivial += 1; }
                 } else {
